@@ -12,12 +12,11 @@ fi
 cd /verif
 rc_all=0
 for id in "$@"; do
-    out=$(VMC_REPO="$tmp/repo" VMC_NO_EVIDENCE=1 ./check "$id" --tier "${TIER:-quick}" 2>&1)
+    out=$(VMC_REPO="$tmp/repo" VMC_NO_EVIDENCE=1 VMC_REPLAY_DIR="$tmp/replays" ./check "$id" --tier "${TIER:-quick}" 2>&1)
     rc=$?
     first=$(echo "$out" | grep -A1 '^VIOLATION' | sed -n 2p | cut -c1-220)
     echo "$id rc=$rc $(echo "$out" | grep -c '^VIOLATION') violation-lines :: $first"
     [ $rc -eq 1 ] || rc_all=1
 done
 rm -rf "$tmp"
-rm -f /verif/replays/C[0-9][0-9]-*.json
 exit $rc_all
